@@ -30,7 +30,9 @@ def isRootTree (t : Tree) : Bool :=
 
 /-- `xml_from_dict(tree, is_root)` -/
 def xmlFromDict (u : Uris) (pfx : String) (item : Item) (isRoot : Bool) (st : GenState) : Except Err Xml × GenState :=
-  match itemToXml u 100000 item st with
+  -- xml_from_tree starts by resetting the id generator (attachment numbering shares its counters)
+  let st : GenState := { ids := {} }
+  match itemToXml u none 100000 item st with
   | (.error e, st) => (.error e, st)
   | (.ok x, st) =>
     let wrapped : Except Err Xml :=
@@ -48,7 +50,7 @@ def xmlFromDict (u : Uris) (pfx : String) (item : Item) (isRoot : Bool) (st : Ge
       | .ok y =>
         -- generate_eids resets the id generator, then rewrites
         let (z, s') := rewriteEid y pfx {}
-        (.ok (titlesX z), { st with ids := s' })
+        (.ok (titlesX z), { ids := s' })
 
 def convertWith (u : Uris) (pfx : String) (text root : String) (st : GenState) : Except Err Xml × GenState :=
   match parseText text root with
@@ -59,5 +61,30 @@ def convertWith (u : Uris) (pfx : String) (text root : String) (st : GenState) :
 
 def convert (u : Uris) (pfx : String) (text root : String) : Except Err Xml :=
   (convertWith u pfx text root {}).1
+
+/-! ### one parser object over a history of calls (C16) -/
+
+inductive Call where
+  | convert (text root : String)          -- parse_to_xml / xml_from_dict
+  | rewrite (x : Xml) (pfx : String)      -- generator.ids.rewrite_all_eids
+  | pure                                  -- parse, unparse, pre_parse: no generator state involved
+
+inductive Outcome where
+  | doc (r : Except Err Xml)
+  | rewritten (x : Xml) (mapping : List (String × String))
+  | nothing
+
+/-- one call on an object with FRBR URIs `u` and eId prefix `pfx` -/
+def stepCall (u : Uris) (pfx : String) (st : GenState) : Call → Outcome × GenState
+  | .convert text root => let r := convertWith u pfx text root st; (.doc r.1, r.2)
+  | .rewrite x p => let r := rewriteEid x p {}; (.rewritten r.1 r.2.mappings, { ids := r.2 })
+  | .pure => (.nothing, st)
+
+def runCalls (u : Uris) (pfx : String) : GenState → List Call → List Outcome × GenState
+  | st, [] => ([], st)
+  | st, c :: cs =>
+    let (o, st1) := stepCall u pfx st c
+    let (os, st2) := runCalls u pfx st1 cs
+    (o :: os, st2)
 
 end Bluebell
